@@ -391,7 +391,7 @@ func TestC16(t *testing.T) {
 	rig.Main(t, "C16", "rapid: an emitter history (labels, references on both sides, data, comments, optional base, width assumptions, refused calls) x every kind of split point x listing on/off: "+
 		"the head goes to an emitter A, the tail to A.Clone(), then A.Append(clone) (in a third of the cases a second clone of A receives the same tail one byte further on and is discarded); a direct emitter D receives the whole history.  Before Append A must equal its snapshot at the split on bytes, "+
 		"length, PC, flags, all labels and both listings although the clone was emitted into, listed and finalised; after Append A must equal D on all of these, on Finalize()'s verdict and on the "+
-		"finalized bytes; an Append that is 1..n bytes too large must panic and leave A unchanged.  Non-trivial = a label is defined on one side of the split and referenced on the other; distinct = hash(case).",
+		"finalized bytes; an Append that is 1..n bytes too large must panic and leave A unchanged; in a quarter of the cases Finalize is also called at the split point on both sides.  Non-trivial = a label is defined on one side of the split and referenced on the other; distinct = hash(case).",
 		func(r *rig.Run) {
 			ev := r.Ev
 			r.Rapid("rapid", rig.Pick(25000, 100000), func(t *rapid.T) {
